@@ -67,7 +67,7 @@ CHECKS = {
     "C14": dict(
         technique='Coq totality theorems for the tokenizer and the whole parser model (no Panic, no fuel exhaustion, every loop consumes a token) + differential correspondence on mutated modules and token soups under process supervision',
         text='C14_lex_total (tokenizer never errs, panics only in the documented class), C14_parse_total (for every token list and fuel >= 2*length+4 the parser model never panics and never runs out of fuel), C14_lex_parse_total, C14_error_carries_token; 12 000 (quick) mutated modules and token soups through tokenizer -> parser -> resolver -> to_rust -> to_protobuf with per-stage outcome, model and crate compared, oracle: no panic/hang except the sanctioned one.',
-        note='Totality of resolve/to_rust/to_protobuf is tie + process supervisor only (two divergences with witnesses); non-ASCII char classification outside the model; known findings F14-1, F14-2.',
+        note='Resolver and tag-resolution totality are proved too (C14_resolve_total, C14_tag_resolution_total, C14_front_end_total: divergence exactly in the two syntactic classes cyclic import / untagged CHOICE cycle, fuel bounds explicit); the remaining to_rust body and to_protobuf are tie + process supervisor only; non-ASCII char classification outside the model; known findings F14-1, F14-2.',
         design="6 (C14)"),
     "C17": dict(
         technique='Coq proof of the protobuf round trip by induction over the nested type universe, for both writer back ends + differential correspondence on a 22-type zoo',
@@ -106,11 +106,13 @@ CHECKS = {
     "C13": dict(
         technique="Coq proof (tokenizer state machine vs layout renderer, induction over token lists) + differential correspondence",
         text="Gallina model of parse/tokenizer.rs (char-level state machine, Token::append, nested block comments, explicit panic) with theorems "
-             "C13_tokenize / C13_layout_invariant / C13_locations / C13_positions_intrinsic for every lex_safe layout over seven gap kinds; model "
+             "C13_tokenize / C13_layout_invariant / C13_locations / C13_positions_intrinsic for every lex_safe layout over nine gap kinds (incl. lone CR and '-- c --'), C13_lone_cr_is_a_blank, three refuted witnesses; model "
              "tied to /repo by differential execution on generated re-layouts and malformed streams, judged by an independent Python oracle "
              "(token contents and 1-based line/column of every token).",
         note="Trusted: Coq kernel, extraction + driver, harness, Python printer/oracle; str::lines and char::is_control modelled (exact for all "
-             "Unicode scalar values); '*' '/' as comment content, '-- c --' and lone CR are covered by the tie only.",
+             "Unicode scalar values); the layout class includes '*' '/' and CR as block-comment content, lone CR as a blank and '-- c --' comments "
+             "followed only by blanks/comments on their line; a second '--' does not end a line comment and a lone CR does not end one (F13-1, F13-2, "
+             "X.680 12.6.3 / 12.1.6 deviations, listed); VT/FF outside the property's separator set.",
         design="6 (C13)"),
     "C15": dict(
         technique="Coq proof (pure Z arithmetic over all of i64^2) + exhaustive boundary-pair correspondence",
